@@ -14,11 +14,7 @@
     both defined here.  Those files compile unchanged before and after the
     repair of the model (checked against a patched private copy of Cli.v).
 
-    WHEN Model/Cli.v IS REPAIRED ([... else c0 :: r]):
-      1. in the definition of [file_string] below replace  [Some r]  by  [Some (c :: r)]
-         (the line is marked);  nothing else in this file changes -- the proof
-         scripts of the lemmas below go through for both variants;
-      2. delete Proofs/SettingsModelDefect.v (facts that hold only of the defective model). *)
+    (Model/Cli.v has been repaired; [file_string] below is the intended meaning.) *)
 From HP Require Import Base.Bytes Base.Utf8 Base.Num Model.Scanner Model.Parser Model.Elements Model.Resolver
   Model.Dates Model.Tree Model.Writer Model.Reporters Model.Cli.
 
@@ -26,11 +22,12 @@ From HP Require Import Base.Bytes Base.Utf8 Base.Num Model.Scanner Model.Parser 
     configuration file contributes to the precedence chain:
     nothing when the file has no such entry or gives the empty string ("empty
     counts as unset"); otherwise
-      - INTENDED (the Go program): the entry itself, [Some (c :: r)];
-      - CURRENT MODEL (defect): the entry WITHOUT ITS FIRST BYTE, [Some r]. *)
+    the entry itself.  (An earlier version of Model/Cli.v dropped the first byte of
+    the entry - a slip in the model found while proving this file, repaired since;
+    the correspondence check of C16 exposes the same slip.) *)
 Definition file_string (o : option bytes) : option bytes :=
   match o with
-  | Some (c :: r) => Some r            (* <-- after the repair of Model/Cli.v:  Some (c :: r) *)
+  | Some (c :: r) => Some (c :: r)
   | _ => None
   end.
 
